@@ -98,7 +98,12 @@ class Session(Thread):
             self.logger.debug('dispatching error to %r', l)
             try: # here we can be more considerate with catching exceptions
                 l.errback(err)
-            except Exception as e:
+            except BaseException as e:
+                # also SystemExit & co. (an application errback that calls
+                # sys.exit()): whatever one listener's errback does, the error
+                # must reach the listeners after it - among them the one that
+                # fails the outstanding requests - and the caller must get to
+                # close the session
                 self.logger.warning('error dispatching to %r: %r', l, e)
 
     def _post_connect(self, timeout=60):
